@@ -123,10 +123,30 @@ func (m *Model) Close() {
 }
 
 // ModelPool runs several kmodel processes for parallel workers.
-type ModelPool struct{ ms []*Model }
+type ModelPool struct {
+	ms  []*Model
+	sbs map[*Model]*Sandbox
+	t   testing.TB
+	smu sync.Mutex
+}
+
+// Sandbox returns the sandbox child that belongs to a model worker (created on first use).
+func (p *ModelPool) Sandbox(m *Model) *Sandbox {
+	p.smu.Lock()
+	defer p.smu.Unlock()
+	if p.sbs == nil {
+		p.sbs = map[*Model]*Sandbox{}
+	}
+	if s, ok := p.sbs[m]; ok {
+		return s
+	}
+	s := StartSandbox(p.t)
+	p.sbs[m] = s
+	return s
+}
 
 func StartPool(t testing.TB, n int) *ModelPool {
-	p := &ModelPool{}
+	p := &ModelPool{t: t}
 	for i := 0; i < n; i++ {
 		p.ms = append(p.ms, StartModel(t))
 	}
@@ -136,6 +156,9 @@ func (p *ModelPool) Get(i int) *Model { return p.ms[i%len(p.ms)] }
 func (p *ModelPool) Close() {
 	for _, m := range p.ms {
 		m.Close()
+	}
+	for _, s := range p.sbs {
+		s.Close()
 	}
 }
 func (p *ModelPool) Asked() int {
